@@ -19,6 +19,7 @@
 #include <limits>
 #include <memory>
 #include <numeric>
+#include <optional>
 
 namespace simpl
 {
@@ -297,6 +298,7 @@ namespace simpl
       using SolverT = decltype(builder.Build());
       using StateT = decltype(std::declval<SolverT&>().GetState());
       std::unique_ptr<StateT> earlier_state;
+      std::optional<SolverT> solver_slot;
       if (reuse)
       {
         Config dc = c;
@@ -304,17 +306,21 @@ namespace simpl
         micm::System dsys;
         std::vector<micm::Process> dprocs;
         make_system(m, dc, dsys, dprocs, true);
-        auto earlier = builder.SetSystem(dsys)
-                           .SetReactions(procs)
-                           .SetNumberOfGridCells((int)pb.ncells)
-                           .SetReorderState(c.reorder)
-                           .Build();
-        earlier_state = std::make_unique<StateT>(earlier.GetState());
+        solver_slot.emplace(builder.SetSystem(dsys)
+                                .SetReactions(procs)
+                                .SetNumberOfGridCells((int)pb.ncells)
+                                .SetReorderState(c.reorder)
+                                .Build());
+        earlier_state = std::make_unique<StateT>(solver_slot->GetState());
         builder.SetSystem(sys);
+        *solver_slot = builder.Build();  // move assignment onto a solver that has already handed out a State
       }
       else
+      {
         builder.SetSystem(sys).SetReactions(procs).SetNumberOfGridCells((int)pb.ncells).SetReorderState(c.reorder);
-      auto solver = builder.Build();
+        solver_slot.emplace(builder.Build());
+      }
+      SolverT& solver = *solver_slot;
       auto fresh_state = solver.GetState();
       if (reuse)
         *earlier_state = fresh_state;
